@@ -15,12 +15,13 @@ use tantivy::aggregation::intermediate_agg_result::IntermediateAggregationResult
 use tantivy::aggregation::{AggContextParams, AggregationCollector, AggregationLimitsGuard, DistributedAggregationCollector};
 use tantivy::query::{AllQuery, Query, TermQuery};
 use tantivy::schema::{Field, IndexRecordOption, Schema, FAST, STRING};
+use tantivy::DateTime;
 use tantivy::{Index, IndexWriter, TantivyDocument, Term};
 use tvh::out::CaseOut;
 use tvh::rng::Rng;
 use tvh::{guarded, Args};
 
-const HEADER: &str = "From TV Require Import Base.Prelude Agg.Intermediate Agg.Metrics Agg.Buckets Agg.Tree.\nFrom Coq Require Import QArith.\nLocal Close Scope Q_scope.";
+const HEADER: &str = "From TV Require Import Base.Prelude Agg.Intermediate Agg.Metrics Agg.Buckets Agg.Tree Agg.Ext Generated.Constants.\nFrom Coq Require Import QArith.\nLocal Close Scope Q_scope.";
 
 // ------------------------------------------------------------------------------------------------
 // corpus
@@ -245,6 +246,37 @@ fn gen_keycut_req(rng: &mut Rng) -> Req {
         3 => Req::Histo { field: 3, interval: (10, 1), offset: (0, 1), mdc: 1, hard: None, ext: None, subs: vec![inner] },
         _ => Req::Terms { field: 5, size: 10, seg_size: Some(5000), mdc: 1, order: TOrd::Key(false), missing: None, subs: vec![inner] },
     }
+}
+
+/// corpus for "batches of one document" and "column absent in a segment": the metric fields i0, u1, f4 are always
+/// multi-valued, the parent fields are single-valued (never class F141): s2 unique per document (singleton term
+/// buckets), i3 zero or one value, grp one value
+fn gen_sb_corpus(rng: &mut Rng, n: usize) -> Vec<Doc> {
+    (0..n).map(|i| Doc { vals: vec![
+        (0..rng.range(2, 3)).map(|_| Val::I(rng.range(0, 40) as i64 - 15)).collect(),
+        (0..rng.range(1, 3)).map(|_| Val::I(rng.range(0, 30) as i64)).collect(),
+        vec![Val::S(format!("u{:03}", i))],
+        if rng.chance(1, 2) { vec![Val::I(rng.range(0, 20) as i64 - 10)] } else { vec![] },
+        (0..2).map(|_| Val::I(rng.range(0, 24) as i64 - 8)).collect(),
+        vec![Val::S(rng.pick(&["a", "b", "c"]).to_string())],
+    ] }).collect()
+}
+
+fn gen_sb_req(rng: &mut Rng) -> Vec<Req> {
+    let metric = |rng: &mut Rng| Req::Metric { kind: *rng.pick(&[MKind::Count, MKind::Sum, MKind::Min, MKind::Max, MKind::Avg, MKind::Stats]), field: *rng.pick(&[0usize, 1, 4]), missing: None };
+    // a metric with a (negative / positive) `missing` over the sparse field: a segment may lack the column altogether
+    let sparse = |rng: &mut Rng| Req::Metric { kind: *rng.pick(&[MKind::Sum, MKind::Min, MKind::Stats, MKind::Avg, MKind::Max]), field: 3, missing: Some(rng.range(0, 60) as i64 - 40) };
+    let subs = |rng: &mut Rng| -> Vec<Req> { let mut v = vec![metric(rng)]; if rng.chance(1, 2) { v.push(metric(rng)); } if rng.chance(1, 3) { v.push(sparse(rng)); } v };
+    let parent = match rng.below(6) {
+        0 | 1 => Req::Terms { field: 2, size: 100, seg_size: Some(5000), mdc: 1, order: TOrd::Key(false), missing: None, subs: subs(rng) },
+        2 => Req::Terms { field: 5, size: 10, seg_size: Some(5000), mdc: 1, order: TOrd::Key(false), missing: None, subs: subs(rng) },
+        3 => Req::Filter { pred: Some(rng.pick(&["a", "b", "c"]).to_string()), subs: subs(rng) },
+        4 => Req::Range { field: 3, cuts: vec![-3, 4], style: 0, subs: subs(rng) },
+        _ => Req::Histo { field: 3, interval: (5, 1), offset: (0, 1), mdc: 1, hard: None, ext: None, subs: subs(rng) },
+    };
+    let mut rs = vec![metric(rng), parent];
+    if rng.chance(1, 2) { rs.push(sparse(rng)); }
+    rs
 }
 
 fn q_json(q: (i64, i64)) -> Value { json!(q.0 as f64 / q.1 as f64) }
@@ -539,6 +571,10 @@ fn merge_shape(mut fruits: Vec<IntermediateAggregationResults>, shape: u64, rt: 
         match guarded(|| a.merge_fruits(b).map(|_| a)) { Ok(Ok(a)) => Ok(a), Ok(Err(e)) => Err(format!("merge error: {e}")), Err(p) => Err(format!("merge panic: {p}")) }
     };
     if fruits.is_empty() { return Ok(IntermediateAggregationResults::default()); }
+    // empty intermediate results (an index without segments, `default()` as the accumulator of a fold) may stand
+    // anywhere in the merge tree: as the first accumulator and at a random inner position
+    if rng.chance(2, 3) { fruits.insert(0, IntermediateAggregationResults::default()); }
+    if rng.chance(1, 3) { let i = rng.below(fruits.len() as u64 + 1) as usize; fruits.insert(i, IntermediateAggregationResults::default()); }
     match shape % 4 {
         0 => { let mut it = fruits.into_iter(); let mut acc = it.next().unwrap(); for f in it { acc = step(acc, f)?; } Ok(acc) }
         1 => { let mut acc = fruits.pop().unwrap(); while let Some(f) = fruits.pop() { acc = step(f, acc)?; } Ok(acc) }
@@ -704,6 +740,268 @@ fn frac_stream(out: &mut CaseOut, rng: &mut Rng, thorough: bool) {
     }
 }
 
+// ------------------------------------------------------------------------------------------------
+// Extended scenarios, decided against oracles computed here (group-by of the corpus / documented formula) and
+// classified by coq/Agg/Ext.v when the implementation fails:
+//   metrics with `missing`, range and cardinality over a dynamic JSON path that some segments do not carry (F142, F143),
+//   composite with a terms / date_histogram(fixed_interval) source, instants before 1970 (F144),
+//   terms(min_doc_count 0) > composite under every merge order (F145).
+#[derive(Clone, Debug)]
+struct XDoc { grp: String, tags: Vec<String>, n: i64, dt_ms: i64, jv: Option<i64>, jc: Option<String> }
+
+fn xindex(parts: &[Vec<XDoc>]) -> tantivy::Result<Index> {
+    let mut sb = Schema::builder();
+    let grp = sb.add_text_field("grp", STRING | FAST);
+    let tag = sb.add_text_field("tag", STRING | FAST);
+    let n = sb.add_i64_field("n", FAST);
+    let dt = sb.add_date_field("dt", FAST);
+    let j = sb.add_json_field("j", FAST);
+    let index = Index::create_in_ram(sb.build());
+    let mut w: IndexWriter = index.writer_with_num_threads(1, 20_000_000)?;
+    w.set_merge_policy(Box::new(tantivy::merge_policy::NoMergePolicy));
+    for p in parts {
+        if p.is_empty() { continue; }
+        for d in p {
+            let mut t = TantivyDocument::default();
+            t.add_text(grp, &d.grp);
+            for s in &d.tags { t.add_text(tag, s); }
+            t.add_i64(n, d.n);
+            t.add_date(dt, DateTime::from_timestamp_millis(d.dt_ms));
+            let mut o = Map::new();
+            o.insert("o".into(), json!(1));
+            if let Some(v) = d.jv { o.insert("v".into(), json!(v)); }
+            if let Some(c) = &d.jc { o.insert("c".into(), json!(c)); }
+            let obj: std::collections::BTreeMap<String, tantivy::schema::OwnedValue> = serde_json::from_value(Value::Object(o)).unwrap();
+            t.add_object(j, obj);
+            w.add_document(t)?;
+        }
+        w.commit()?;
+    }
+    w.wait_merging_threads()?;
+    Ok(index)
+}
+
+fn qf(v: f64) -> String { q_of_f64(v).unwrap_or_else(|| "(0 # 1)%Q".into()) }
+
+/// every way the request is evaluated: (label, partition index or usize::MAX for a distributed merge, result)
+fn xruns(indexes: &[Index], split: &[Index], empty: &Index, q: &dyn Query, aggs: &Aggregations, rng: &mut Rng) -> Vec<(String, usize, Result<Value, String>)> {
+    let mut runs = vec![];
+    for (pi, ix) in indexes.iter().enumerate() { runs.push((format!("partition {pi}"), pi, run_final(ix, q, aggs))); }
+    let fruits: Result<Vec<IntermediateAggregationResults>, String> = split.iter().map(|ix| run_fruit(ix, q, aggs)).collect();
+    match fruits {
+        Err(e) => runs.push(("distributed collection".into(), usize::MAX, Err(e))),
+        Ok(mut fruits) => {
+            if let Ok(f) = run_fruit(empty, q, aggs) { let at = rng.below(fruits.len() as u64 + 1) as usize; fruits.insert(at, f); }
+            for oi in 0..4u64 {
+                let mut fs = fruits.clone();
+                if oi > 0 { rng.shuffle(&mut fs); }
+                let r = merge_shape(fs, oi, oi % 2 == 1, rng).and_then(|m| match guarded(|| m.into_final_result(aggs.clone(), AggregationLimitsGuard::default())) {
+                    Ok(Ok(res)) => Ok(serde_json::to_value(&res).unwrap()), Ok(Err(e)) => Err(format!("error: {e}")), Err(p) => Err(format!("panic: {p}")) });
+                runs.push((format!("distributed merge order {oi}"), usize::MAX, r));
+            }
+        }
+    }
+    runs
+}
+
+fn ext_stream(out: &mut CaseOut, rng: &mut Rng, thorough: bool) {
+    use std::collections::BTreeMap;
+    let n_corpora = if thorough { 120 } else { 16 };
+    let tags = ["ta", "tb", "tc", "td", "te", "tf"];
+    let empty = xindex(&[]).expect("index build");
+    for ci in 0..n_corpora {
+        let n_docs = rng.range(2, 24) as usize;
+        let jv_share = *rng.pick(&[1u64, 2, 3]);
+        let docs: Vec<XDoc> = (0..n_docs).map(|_| XDoc {
+            grp: rng.pick(&["a", "a", "b"]).to_string(),
+            tags: { let k = rng.range(1, 2); let mut v: Vec<String> = vec![]; for _ in 0..k { let t = rng.pick(&tags).to_string(); if !v.contains(&t) { v.push(t); } } v },
+            n: rng.range(0, 4) as i64 - 1,
+            dt_ms: match rng.below(4) { 0 => (rng.range(0, 8) as i64 - 4) * 21_600_000, _ => rng.range(0, 6 * 86_400_000) as i64 - 3 * 86_400_000 },
+            jv: if rng.below(4) < jv_share { Some(rng.range(0, 30) as i64 - 12) } else { None },
+            jc: if rng.chance(1, 2) { Some(rng.pick(&["red", "green", "blue"]).to_string()) } else { None },
+        }).collect();
+        let filter_g: Option<&str> = if ci % 2 == 0 { None } else { Some("a") };
+        let matching = |d: &XDoc| filter_g.map_or(true, |g| d.grp == g);
+        // partitions: one segment; random 2..5 parts; documents carrying j.v / j.c apart from the others
+        let mut partitions: Vec<Vec<Vec<XDoc>>> = vec![vec![docs.clone()]];
+        for _ in 0..2 {
+            let k = rng.range(2, 5) as usize;
+            let mut parts = vec![vec![]; k];
+            for d in &docs { parts[rng.below(k as u64) as usize].push(d.clone()); }
+            parts.retain(|p: &Vec<XDoc>| !p.is_empty());
+            partitions.push(parts);
+        }
+        let (with, without): (Vec<XDoc>, Vec<XDoc>) = docs.iter().cloned().partition(|d| d.jv.is_some() || d.jc.is_some());
+        let mut by_col = vec![with, without];
+        by_col.retain(|p| !p.is_empty());
+        partitions.push(by_col);
+        let indexes: Vec<Index> = partitions.iter().map(|p| xindex(p).expect("index build")).collect();
+        let split: Vec<Index> = partitions[1].iter().map(|p| xindex(std::slice::from_ref(p)).expect("index build")).collect();
+        let gschema = indexes[0].schema();
+        let query: Box<dyn Query> = match filter_g {
+            None => Box::new(AllQuery),
+            Some(g) => Box::new(TermQuery::new(Term::from_field_text(gschema.get_field("grp").unwrap(), g), IndexRecordOption::Basic)),
+        };
+        let md: Vec<&XDoc> = docs.iter().filter(|d| matching(d)).collect();
+        let part_of = |pi: usize| -> &Vec<Vec<XDoc>> { if pi == usize::MAX { &partitions[1] } else { &partitions[pi] } };
+        let has_col = |parts: &Vec<Vec<XDoc>>, f: &dyn Fn(&XDoc) -> bool| -> String { list(parts, |p| list(p, |d| format!("{}", f(d)))) };
+
+        // one scenario = request + oracle (a canonical projection of the result) + classifier
+        let scenario = |out: &mut CaseOut, rng: &mut Rng, name: &str, rjson: Value, project: &dyn Fn(&Value) -> Result<Value, String>, expected: Value,
+                            known: &str, class_term: &dyn Fn(&Vec<Vec<XDoc>>) -> String| {
+            let aggs: Aggregations = match serde_json::from_value(rjson.clone()) { Ok(a) => a, Err(e) => { out.spec_checked(false, json!({"what": "harness: request JSON rejected", "error": e.to_string(), "request": rjson})); return; } };
+            out.count(&format!("ext_{name}"), 1);
+            let runs = xruns(&indexes, &split, &empty, query.as_ref(), &aggs, rng);
+            let mut first_bad: Option<(String, usize, Value)> = None;
+            for (label, pi, r) in runs {
+                let got = match &r { Ok(v) => project(v).unwrap_or_else(|e| json!({"shape error": e, "impl": v})), Err(e) => json!({"failed": e}) };
+                if got != expected && first_bad.is_none() { first_bad = Some((label, pi, got)); }
+            }
+            let desc = json!({"what": name, "request": rjson, "query": filter_g, "docs": format!("{:?}", docs), "expected": expected});
+            match first_bad {
+                None => out.spec_checked(true, json!({})),
+                Some((label, pi, got)) => {
+                    let mut d = desc; d["run"] = json!(label); d["impl"] = got; d["partition"] = json!(format!("{:?}", part_of(pi)));
+                    if known.is_empty() { out.spec_checked(false, d); }
+                    else { out.count(&format!("ext_{name}_known_{known}"), 1); out.coq_case(&format!("known:{known}"), class_term(part_of(pi)), d, true); }
+                }
+            }
+        };
+
+        // ---- metric with `missing` over j.v
+        for _ in 0..2 {
+            let kind = *rng.pick(&["sum", "min", "max", "value_count", "stats"]);
+            let m: f64 = *rng.pick(&[-20.0, -1.5, 2.5, 7.0, 0.0, -3.0]);
+            let vals: Vec<f64> = md.iter().map(|d| d.jv.map_or(m, |v| v as f64)).collect();
+            let (cnt, sum) = (vals.len() as f64, vals.iter().sum::<f64>());
+            let (mn, mx) = (vals.iter().cloned().fold(f64::INFINITY, f64::min), vals.iter().cloned().fold(f64::NEG_INFINITY, f64::max));
+            let opt = |x: f64| if vals.is_empty() { Value::Null } else { json!(x) };
+            let expected = match kind { "sum" => json!(sum), "min" => opt(mn), "max" => opt(mx), "value_count" => json!(cnt), _ => json!([cnt, sum, opt(mn), opt(mx)]) };
+            let project = move |v: &Value| -> Result<Value, String> { let a = v.get("a0").ok_or("a0")?; Ok(if kind == "stats" { json!([a["count"].as_f64(), a["sum"].as_f64(), a["min"].clone(), a["max"].clone()]) } else { a["value"].clone() }) };
+            // normalise numbers: compare as f64
+            let norm = |v: Value| -> Value { match v { Value::Array(a) => Value::Array(a.into_iter().map(|x| x.as_f64().map_or(Value::Null, |f| json!(f))).collect()), x => x.as_f64().map_or(Value::Null, |f| json!(f)) } };
+            let expected = norm(expected);
+            scenario(out, rng, "metric_missing_json", json!({"a0": {kind: {"field": "j.v", "missing": m}}}), &move |v| project(v).map(norm), expected,
+                     "F142", &|parts| format!("f142 (XMetricMissing {}) {}", qf(m), has_col(parts, &|d| d.jv.is_some())));
+        }
+        // ---- range over j.v with negative bounds
+        {
+            let mut cuts: Vec<i64> = (0..rng.range(1, 3)).map(|_| rng.range(0, 30) as i64 - 14).collect();
+            cuts.sort(); cuts.dedup();
+            let mut ranges = vec![json!({"to": cuts[0] as f64})];
+            for i in 0..cuts.len() - 1 { ranges.push(json!({"from": cuts[i] as f64, "to": cuts[i + 1] as f64})); }
+            ranges.push(json!({"from": cuts[cuts.len() - 1] as f64}));
+            let vals: Vec<i64> = md.iter().filter_map(|d| d.jv).collect();
+            let mut expected = vec![];
+            for i in 0..=cuts.len() {
+                let lo = if i == 0 { None } else { Some(cuts[i - 1]) };
+                let hi = if i == cuts.len() { None } else { Some(cuts[i]) };
+                let c = vals.iter().filter(|v| lo.map_or(true, |l| **v >= l) && hi.map_or(true, |h| **v < h)).count();
+                expected.push(json!([lo.map(|x| x as f64), hi.map(|x| x as f64), c]));
+            }
+            let project = |v: &Value| -> Result<Value, String> { Ok(Value::Array(v["a0"]["buckets"].as_array().ok_or("buckets")?.iter().map(|b| json!([b.get("from").and_then(|x| x.as_f64()), b.get("to").and_then(|x| x.as_f64()), b["doc_count"].as_u64()])).collect())) };
+            let cuts2 = cuts.clone();
+            scenario(out, rng, "range_json", json!({"a0": {"range": {"field": "j.v", "ranges": ranges}}}), &project, Value::Array(expected),
+                     "F142", &|parts| format!("f142 (XRange {}) {}", list(&cuts2, |c| qf(*c as f64)), has_col(parts, &|d| d.jv.is_some())));
+        }
+        // ---- cardinality with a string `missing` over j.c
+        {
+            let mut set: Vec<String> = vec![];
+            for d in &md { let v = d.jc.clone().unwrap_or_else(|| "none".into()); if !set.contains(&v) { set.push(v); } }
+            let project = |v: &Value| -> Result<Value, String> { Ok(json!(v["a0"]["value"].as_f64())) };
+            scenario(out, rng, "cardinality_missing_json", json!({"a0": {"cardinality": {"field": "j.c", "missing": "none"}}}), &project, json!(set.len() as f64),
+                     "F143", &|parts| format!("f143 {}", has_col(parts, &|d| d.jc.is_some())));
+        }
+        // ---- composite: one source, size above the number of buckets (one page)
+        {
+            let interval_ms: i64 = *rng.pick(&[86_400_000i64, 21_600_000, 3_600_000 * 12]);
+            let iv = match interval_ms { 86_400_000 => "1d", 21_600_000 => "6h", _ => "12h" };
+            let mut exp: BTreeMap<i64, u64> = BTreeMap::new();
+            for d in &md { *exp.entry(d.dt_ms.div_euclid(interval_ms) * interval_ms).or_default() += 1; }
+            let expected = Value::Array(exp.iter().map(|(k, c)| json!([k, c])).collect());
+            let project = |v: &Value| -> Result<Value, String> { Ok(Value::Array(v["a0"]["buckets"].as_array().ok_or("buckets")?.iter().map(|b| json!([b["key"]["h"].as_i64(), b["doc_count"].as_u64()])).collect())) };
+            let instants: Vec<i64> = md.iter().map(|d| d.dt_ms).collect();
+            scenario(out, rng, "composite_date_histogram", json!({"a0": {"composite": {"sources": [{"h": {"date_histogram": {"field": "dt", "fixed_interval": iv}}}], "size": 200}}}), &project, expected,
+                     "F144", &|_parts| format!("f144 {} {}", zs(interval_ms), list(&instants, |t| zs(*t))));
+            let mut exp: BTreeMap<i64, u64> = BTreeMap::new();
+            for d in &md { *exp.entry(d.n).or_default() += 1; }
+            let expected = Value::Array(exp.iter().map(|(k, c)| json!([k, c])).collect());
+            let project = |v: &Value| -> Result<Value, String> { Ok(Value::Array(v["a0"]["buckets"].as_array().ok_or("buckets")?.iter().map(|b| json!([b["key"]["n"].as_i64(), b["doc_count"].as_u64()])).collect())) };
+            scenario(out, rng, "composite_terms", json!({"a0": {"composite": {"sources": [{"n": {"terms": {"field": "n"}}}], "size": 200}}}), &project, expected, "", &|_| String::new());
+        }
+        // ---- terms(min_doc_count 0) > composite
+        {
+            let mut all_tags: Vec<String> = vec![];
+            for d in &docs { for t in &d.tags { if !all_tags.contains(t) { all_tags.push(t.clone()); } } }
+            all_tags.sort();
+            let expected = Value::Array(all_tags.iter().map(|t| {
+                let ds: Vec<&&XDoc> = md.iter().filter(|d| d.tags.contains(t)).collect();
+                let mut exp: BTreeMap<i64, u64> = BTreeMap::new();
+                for d in &ds { *exp.entry(d.n).or_default() += 1; }
+                json!([t, ds.len(), exp.iter().map(|(k, c)| json!([k, c])).collect::<Vec<_>>()])
+            }).collect());
+            let project = |v: &Value| -> Result<Value, String> { Ok(Value::Array(v["a0"]["buckets"].as_array().ok_or("buckets")?.iter().map(|b|
+                json!([b["key"], b["doc_count"].as_u64(), b["a0"]["buckets"].as_array().map(|bs| bs.iter().map(|c| json!([c["key"]["n"].as_i64(), c["doc_count"].as_u64()])).collect::<Vec<_>>())])).collect())) };
+            scenario(out, rng, "terms_mdc0_composite", json!({"a0": {"terms": {"field": "tag", "min_doc_count": 0, "size": 100, "order": {"_key": "asc"}},
+                                                              "aggs": {"a0": {"composite": {"sources": [{"n": {"terms": {"field": "n"}}}], "size": 200}}}}}), &project, expected,
+                     "F145", &|parts| format!("f145 {}", list(parts, |p| list(p, |d| format!("({}, {})", list(&d.tags, |t| key_coq(&Val::S(t.clone()))), matching(d))))));
+        }
+    }
+}
+
+/// histogram > top_hits over segments that flush the sub-aggregation buffer more than once (F146)
+fn top_hits_stream(out: &mut CaseOut, rng: &mut Rng, thorough: bool) {
+    let empty = xindex(&[]).expect("index build");
+    for _ in 0..(if thorough { 8 } else { 2 }) {
+        let k = rng.range(5, 50) as i64;
+        let head = 2048 * rng.range(1, 2) as usize;
+        let tail = rng.range(1, 300) as usize;
+        let low = rng.range(1, k as u64) as i64;
+        let mut docs: Vec<XDoc> = vec![];
+        for i in 0..head + tail {
+            let n = if i < head { (i as i64 * 7) % k } else { rng.below(low as u64) as i64 };
+            docs.push(XDoc { grp: "a".into(), tags: vec!["t".into()], n, dt_ms: 0, jv: None, jc: None });
+        }
+        let mut partitions: Vec<Vec<Vec<XDoc>>> = vec![vec![docs.clone()]];
+        partitions.push(vec![docs[..1024].to_vec(), docs[1024..2040].to_vec(), docs[2040..].to_vec()]);
+        let cut = rng.range(100, 1900) as usize;
+        partitions.push(vec![docs[..cut].to_vec(), docs[cut..].to_vec()]);
+        let indexes: Vec<Index> = partitions.iter().map(|p| xindex(p).expect("index build")).collect();
+        let split: Vec<Index> = partitions[1].iter().map(|p| xindex(std::slice::from_ref(p)).expect("index build")).collect();
+        let size = rng.range(1, 2);
+        let rjson = json!({"a0": {"histogram": {"field": "n", "interval": 1.0, "min_doc_count": 1}, "aggs": {"a0": {"top_hits": {"size": size, "sort": [{"n": "desc"}], "docvalue_fields": ["n"]}}}}});
+        let aggs: Aggregations = match serde_json::from_value(rjson.clone()) { Ok(a) => a, Err(e) => { out.spec_checked(false, json!({"what": "harness: request JSON rejected", "error": e.to_string(), "request": rjson})); continue; } };
+        let mut counts: std::collections::BTreeMap<i64, u64> = Default::default();
+        for d in &docs { *counts.entry(d.n).or_default() += 1; }
+        let expected = Value::Array(counts.iter().map(|(n, c)| json!([*n as f64, c, (*c).min(size), *n])).collect());
+        let project = |v: &Value| -> Value { Value::Array(v["a0"]["buckets"].as_array().cloned().unwrap_or_default().iter().map(|b| {
+            let hits = b["a0"]["hits"].as_array().cloned().unwrap_or_default();
+            json!([b["key"].as_f64(), b["doc_count"].as_u64(), hits.len(), hits.first().map(|h| h["docvalue_fields"]["n"][0].clone()).unwrap_or(json!(b["key"].as_f64().map(|x| x as i64)))])
+        }).collect()) };
+        out.count("ext_histogram_top_hits", 1);
+        let mut first_bad: Option<(String, usize, Value)> = None;
+        for (label, pi, r) in xruns(&indexes, &split, &empty, &AllQuery, &aggs, rng) {
+            let got = match &r { Ok(v) => project(v), Err(e) => json!({"failed": e}) };
+            if got != expected && first_bad.is_none() { first_bad = Some((label, pi, got)); }
+        }
+        match first_bad {
+            None => out.spec_checked(true, json!({})),
+            Some((label, pi, got)) => {
+                let parts = if pi == usize::MAX { &partitions[1] } else { &partitions[pi] };
+                // bucket ids by first appearance, per segment, in collection order
+                let ids = list(parts, |p| { let mut seen: Vec<i64> = vec![]; let mut idv: Vec<usize> = vec![];
+                    for d in p { let i = match seen.iter().position(|x| *x == d.n) { Some(i) => i, None => { seen.push(d.n); seen.len() - 1 } }; idv.push(i); }
+                    list(&idv, |i| format!("{}%N", i)) });
+                let missing_hits = got.as_array().map_or(0, |a| a.iter().filter(|b| b[2] == json!(0)).count());
+                out.count("ext_histogram_top_hits_known_F146", 1);
+                out.coq_case("known:F146", format!("f146 AGG_FLUSH_THRESHOLD {}", ids),
+                             json!({"what": "histogram > top_hits loses hits", "request": rjson, "run": label, "segments": parts.iter().map(|p| p.len()).collect::<Vec<_>>(),
+                                    "docs": format!("{} documents: n = (i*7) mod {} for i < {}, then {} documents with n < {}", docs.len(), k, head, tail, low), "buckets_without_hits": missing_hits}), true);
+            }
+        }
+    }
+}
+
 fn main() {
     let args = Args::parse();
     tvh::quiet_panics();
@@ -716,13 +1014,20 @@ fn main() {
     let mut tie_dependent = 0u64;
 
     let n_keycut = if thorough { 60 } else { 6 };
-    for ci in 0..n_corpora + n_keycut {
-        let keycut = ci >= n_corpora;
+    let n_sb = if thorough { 60 } else { 10 };
+    let (_, fl0) = schema();
+    let empty_index = Index::create_in_ram(schema().0);   // an index without any segment
+    let _ = fl0;
+    for ci in 0..n_corpora + n_keycut + n_sb {
+        let keycut = ci >= n_corpora && ci < n_corpora + n_keycut;
+        let sb = ci >= n_corpora + n_keycut;
         let profile = rng.below(12);
         let n_docs = match ci % 6 { 0 => rng.range(1, 4) as usize, 1 => rng.range(5, 12) as usize, _ => rng.range(10, if thorough { 60 } else { 36 }) as usize };
-        let corpus = if keycut { let n = rng.range(90, 130) as usize; gen_keycut_corpus(&mut rng, n) } else { gen_corpus(&mut rng, n_docs, profile) };
+        let corpus = if keycut { let n = rng.range(90, 130) as usize; gen_keycut_corpus(&mut rng, n) }
+                     else if sb { let n = *rng.pick(&[1usize, 2, 3, 5, 6, 6, 65, 66, 129]); gen_sb_corpus(&mut rng, n) }
+                     else { gen_corpus(&mut rng, n_docs, profile) };
         // filtering query: all documents or grp == g
-        let filter_g: Option<&str> = if keycut { None } else { match ci % 3 { 0 => None, 1 => Some("a"), _ => Some("b") } };
+        let filter_g: Option<&str> = if keycut || sb { None } else { match ci % 3 { 0 => None, 1 => Some("a"), _ => Some("b") } };
         let matching = |d: &Doc| filter_g.map_or(true, |g| d.vals[5] == vec![Val::S(g.to_string())]);
         let (_, fl) = schema();
         let query: Box<dyn Query> = match filter_g {
@@ -739,6 +1044,19 @@ fn main() {
             parts.retain(|p| !p.is_empty());
             partitions.push(parts);
         }
+        if sb {
+            // directed partitions: (1) segments of exactly one document (every document alone when <= 6 documents, else one
+            // document split off: 64k + 1 documents remain in a segment for 65 / 129), (2) the documents without a value of
+            // the sparse field in a segment of their own (the column is absent there)
+            partitions.truncate(1);
+            let singles: Vec<Vec<Doc>> = if corpus.len() <= 6 { corpus.iter().map(|d| vec![d.clone()]).collect() }
+                                         else { vec![corpus[..1].to_vec(), corpus[1..].to_vec()] };
+            partitions.push(singles);
+            let (with, without): (Vec<Doc>, Vec<Doc>) = corpus.iter().cloned().partition(|d| !d.vals[3].is_empty());
+            let mut by_col: Vec<Vec<Doc>> = vec![with, without];
+            by_col.retain(|p| !p.is_empty());
+            partitions.push(by_col);
+        }
         let indexes: Vec<Index> = partitions.iter().map(|p| build_index(p).expect("index build")).collect();
         for (p, ix) in partitions.iter().zip(indexes.iter()) {
             let nseg = ix.searchable_segments().map(|s| s.len()).unwrap_or(0);
@@ -749,9 +1067,10 @@ fn main() {
         let split_parts = partitions.last().unwrap().clone();
         let split_indexes: Vec<Index> = split_parts.iter().map(|p| build_index(std::slice::from_ref(p)).expect("index build")).collect();
 
-        for _ in 0..(if keycut { 3 } else { reqs_per_corpus }) {
+        for _ in 0..(if keycut || sb { 3 } else { reqs_per_corpus }) {
             let n_top = *rng.pick(&[1usize, 1, 2, 3]);
             let rs: Vec<Req> = if keycut { out.count("key_ordered_terms_with_segment_cut", 1); vec![gen_keycut_req(&mut rng)] }
+                               else if sb { out.count("single_document_batches_and_absent_columns", 1); gen_sb_req(&mut rng) }
                                else { (0..n_top).map(|_| gen_req(&mut rng, 2, profile % 3 == 2)).collect() };
             let rjson = subs_json(&rs);
             let aggs: Aggregations = match serde_json::from_value(rjson.clone()) {
@@ -832,7 +1151,14 @@ fn main() {
                         Ok(v) => out.spec_checked(count <= limit && canon(&v) == base_c,
                                                   json!({"what": "bucket limit: result returned although it has more buckets than the limit, or it differs from the unlimited result", "limit": limit, "buckets": count, "case": desc, "impl": v})),
                         Err(e) => { out.count("bucket_limit_errors", 1);
-                                    out.spec_checked(count > limit && e.contains("imit"), json!({"what": "bucket limit: error although the result fits the limit", "limit": limit, "buckets": count, "error": e, "case": desc})) }
+                                    // a filter bucket checks the limit on its own sub-tree (FilterBucketResult: nested into_final_result), and it does so for
+                                    // every bucket of its parent BEFORE the parent's size cut: an error although the final result fits is possible there.
+                                    // The property only forbids the opposite (a shortened result instead of an error).
+                                    fn has_filter(r: &Req) -> bool { match r { Req::Filter { .. } => true, Req::Metric { .. } => false,
+                                        Req::Range { subs, .. } | Req::Histo { subs, .. } | Req::Terms { subs, .. } => subs.iter().any(has_filter) } }
+                                    let conservative = count <= limit && rs.iter().any(has_filter);
+                                    if conservative { out.count("bucket_limit_conservative_errors_below_filter", 1); }
+                                    out.spec_checked((count > limit || conservative) && e.contains("imit"), json!({"what": "bucket limit: error although the result fits the limit", "limit": limit, "buckets": count, "error": e, "case": desc})) }
                     }
                 }
             }
@@ -847,6 +1173,11 @@ fn main() {
                 }
             }
             if !ok { continue; }
+            // one of the separately searched indexes has no segment at all
+            match run_fruit(&empty_index, query.as_ref(), &aggs) {
+                Ok(f) => { let at = rng.below(fruits.len() as u64 + 1) as usize; fruits.insert(at, f); out.count("empty_index_fruits", 1); }
+                Err(e) => out.spec_checked(false, json!({"what": "distributed collection failed on an index without segments", "error": e, "case": desc})),
+            }
             // a round trip is the identity
             for f in &fruits {
                 let same = roundtrip(f).map(|g| &g == f).unwrap_or(false);
@@ -875,6 +1206,10 @@ fn main() {
             }
         }
     }
+    // ---- dynamic columns, cardinality, composite (oracles on this side, classifiers in coq/Agg/Ext.v)
+    ext_stream(&mut out, &mut rng, thorough);
+    top_hits_stream(&mut out, &mut rng, thorough);
+
     // ---- fractional intervals / offsets / values (fused terms x histogram path and the general path)
     frac_stream(&mut out, &mut rng, thorough);
 
